@@ -1043,22 +1043,11 @@ def _clears(a, node, rtxt, fname):
     return False
 
 
-def _same_host_edge(a, fi, cfg, dom, x, k, rtxt, srcs, store_node, attrs=HOST_ATTRS):
-    """Edge (x -k->) is taken only when the new host equals the previous host."""
+def _same_host_edge(a, fi, cfg, dom, x, k, rtxt, srcs, store_node, attrs=HOST_ATTRS, need_origin=False):
+    """Edge (x -k->) is taken only when the new host equals the previous host.  With need_origin the test must also establish
+    that the scheme (or the port) is unchanged: `hostname_with_port` leaves default ports out, so https://h/ and http://h/
+    compare equal although they are different origins (credentials would go out in clear text)."""
     if x.kind != 'if' or k not in ('T', 'F'):
-        return False
-    t = x.stmt.test
-    neg = False
-    while isinstance(t, ast.UnaryOp) and isinstance(t.op, ast.Not):
-        t = t.operand
-        neg = not neg
-    if not (isinstance(t, ast.Compare) and len(t.ops) == 1 and isinstance(t.ops[0], (ast.Eq, ast.NotEq))):
-        return False
-    eq = isinstance(t.ops[0], ast.Eq)
-    if neg:
-        eq = not eq
-    taken_when_equal = (k == 'T') if eq else (k == 'F')
-    if not taken_when_equal:
         return False
     if store_node.id not in dom[x.id]:
         return False          # evaluated before the URL changed: says nothing about the new host
@@ -1082,7 +1071,7 @@ def _same_host_edge(a, fi, cfg, dom, x, k, rtxt, srcs, store_node, attrs=HOST_AT
         return ('new' if s[0] == 'recv' else 'old', s[1])
 
     def side_expr(e):
-        if isinstance(e, ast.Attribute) and e.attr in HOST_ATTRS and isinstance(e.value, ast.Attribute) \
+        if isinstance(e, ast.Attribute) and e.attr in HOST_ATTRS + ('scheme', 'port') and isinstance(e.value, ast.Attribute) \
                 and e.value.attr == 'url_info':
             base = _utxt(e.value.value)
             if base == rtxt:
@@ -1091,10 +1080,45 @@ def _same_host_edge(a, fi, cfg, dom, x, k, rtxt, srcs, store_node, attrs=HOST_AT
                 return ('src', e.attr)
         return None
 
-    l, r = side(t.left), side(t.comparators[0])
-    if l is None or r is None or l[1] != r[1] or l[1] not in attrs:
+    def pair(l_, r_):
+        l, r = side(l_), side(r_)
+        if l is None or r is None or l[1] != r[1] or {l[0], r[0]} != {'new', 'old'}:
+            return None
+        return l[1]
+
+    def facts(t):
+        """('eq', attrs): t is true only if all attrs are equal;  ('ne', attrs): t is false only if all attrs are equal."""
+        if isinstance(t, ast.UnaryOp) and isinstance(t.op, ast.Not):
+            f = facts(t.operand)
+            return None if f is None else ('ne' if f[0] == 'eq' else 'eq', f[1])
+        if isinstance(t, ast.Compare) and len(t.ops) == 1 and isinstance(t.ops[0], (ast.Eq, ast.NotEq)):
+            form = 'eq' if isinstance(t.ops[0], ast.Eq) else 'ne'
+            l_, r_ = t.left, t.comparators[0]
+            if isinstance(l_, ast.Tuple) and isinstance(r_, ast.Tuple) and len(l_.elts) == len(r_.elts):
+                got = [pair(x_, y_) for x_, y_ in zip(l_.elts, r_.elts)]
+                return None if any(g is None for g in got) else (form, set(got))
+            g = pair(l_, r_)
+            return None if g is None else (form, {g})
+        if isinstance(t, ast.BoolOp):
+            fs = [facts(v) for v in t.values]
+            if isinstance(t.op, ast.And):
+                eqs = [f for f in fs if f is not None and f[0] == 'eq']
+                return ('eq', set().union(*[f[1] for f in eqs])) if eqs else None
+            if all(f is not None and f[0] == 'ne' for f in fs):
+                return ('ne', set().union(*[f[1] for f in fs]))
+        return None
+
+    f = facts(x.stmt.test)
+    if f is None:
         return False
-    return {l[0], r[0]} == {'new', 'old'}
+    taken_when_equal = (k == 'T') if f[0] == 'eq' else (k == 'F')
+    if not taken_when_equal:
+        return False
+    if not (f[1] & set(attrs)):
+        return False
+    if need_origin and not (('scheme' in f[1]) or ('port' in f[1] and ({'hostname', 'host'} & f[1]))):
+        return False
+    return True
 
 
 def rule_d2(a, writes):
@@ -1210,7 +1234,8 @@ def rule_d2(a, writes):
                         # the branch on which the host is known to be unchanged needs no removal
                         # (for Host itself only an equal host:port keeps the field valid)
                         if _same_host_edge(a, fi, cfg, dom, x, k, rtxt, srcs - {rtxt} or {rtxt}, sn,
-                                           HOST_ATTRS if _f != 'Host' else ('hostname_with_port',)):
+                                           HOST_ATTRS if _f != 'Host' else ('hostname_with_port',),
+                                           need_origin=_f in ('Authorization', 'Cookie')):
                             return False
                     return True
 
